@@ -62,7 +62,7 @@ ShapeOK(e) ==
   /\ \A j \in 1..(n - 1) : Answer(e.script, j) = "C"
   \* the last answer decides the result when it is stop / error
   /\ (Answer(e.script, n) = "S" => r = <<"Err", "ConsumerStopRequested">>)
-  /\ (Answer(e.script, n) = "E" => r = <<"Err", "ConsumerError", n>>)
+  /\ (Answer(e.script, n) \notin {"C", "S"} => r = <<"Err", "ConsumerError", n>>)
   /\ (Answer(e.script, n) = "C" => r[1] = "Ok" \/ parseErr)
   \* finalize iff parsed to the end without error
   /\ (r = <<"Ok">> => name(n) = "finalize")
